@@ -44,6 +44,12 @@ def race_scenarios(rng, tier):
         out.append({"components": comps[::-1] if order else comps, "n_ticks": 5, "t0": 0})
         comps = [dev("x"), dev("a", cb={"kind": "list", "delays": [P, P, None]})]
         out.append({"components": comps[::-1] if order else comps, "n_ticks": 5, "t0": 0, "start_delays": {"": 3}, "stims": [{"step": 2, "comp": "x"}]})
+    # bursts: interrupts of one device a fraction of a millisecond of real time apart, with ticks of a fast periodic
+    # device in between (whatever an interrupt is stamped with must not lie before a tick that already happened)
+    for gap in (150_000, 400_000, 900_000):
+        for n in (2, 4):
+            out.append({"components": [dev("fast", cb={"kind": "period", "p": 100_000}), dev("x"), dev("y", {"i": ["x", "o"]})], "n_ticks": 14 + 3 * n,
+                        "stims": [{"real": 50_111 + k * gap, "comp": "x" if k % 3 else "y"} for k in range(n)] + [{"real": 50_111 + n * gap + 37, "comp": "x"}]})
     return out
 
 
